@@ -1,6 +1,7 @@
 import JT.Props.C07
 import JT.Props.C08
 import JT.Props.C02
+import JT.Proof.AttStream
 /-!
 # C03 — decoders are total functions of their input
 
@@ -40,5 +41,11 @@ theorem frame_decode_total (f : Bytes) : Frame.decode f ≠ .panic := (C02.decod
 /-- Non-vacuity: the decoders do reject and do accept. -/
 example : Layout.parseL 5 [(0, 2, "SerialNumber"), (2, 4, "ID"), (4, 5, "Result")] [1, 2, 3, 4] = .err := by decide
 example : Layout.parseL 5 [(0, 2, "SerialNumber"), (2, 4, "ID"), (4, 5, "Result")] [1, 2, 3, 4, 5] = .ok [[1, 2], [3, 4], [5]] := by decide
+
+/-- the alarm-attachment control frames (`T0x1210.Parse` for every dialect, `T0x1211.Parse` = `T0x1212.Parse`): no
+out-of-range access on any body -/
+theorem attachment_control_no_panic (b : Bytes) :
+    AttStream.parse1211 b ≠ .panic ∧ ∀ dl, AttStream.parse1210 dl b ≠ .panic :=
+  ⟨AttStream.parse1211_ne_panic b, fun dl => AttStream.parse1210_ne_panic dl b⟩
 
 end JT.C03
